@@ -1103,6 +1103,10 @@ class Runner:
                                   what="cproc-qbe and Model/Init.lean disagree: " + whym,
                                   theorem="CprocVerif.C07.emitdata_image (the model no longer describes init.c/qbe.c)"),
                              nofail=not why)
+        elif nswitch > 0:
+            # several union members initialised: not laminar, outside emitdata's own assumptions (its XXX)
+            self.counts["known_union"] += 1
+            ck.report(dict(replay, kind="union-nonlaminar", model=full[:100]), fid=FID_UNION)
         else:
             ck.violation(dict(replay, kind="correspondence", model=full[:300],
                               what="the model rejects an initialiser that cproc-qbe compiles"), nofail=not why)
